@@ -30,7 +30,7 @@ func TestC05(t *testing.T) {
 		scenario(rec, c)
 		return
 	}
-	n := rec.N(24, 600)
+	n := rec.N(40, 600)
 	for c := 0; c < n; c++ {
 		if rec.Mine(c) {
 			scenario(rec, c)
@@ -104,10 +104,20 @@ func scenario(rec *mon.Recorder, c int) {
 		}
 		return "partition"
 	}
+	noiseSeed := uint64(rng.Int63())
+	var noiseCtr uint64
 	// ---- monitors -----------------------------------------------------------
 	cl.OnEvent = func(n *sim.Node, g uuid.UUID, point string, args ...interface{}) {
 		key := fmt.Sprintf("%d/%s/%d", n.Id, g, n.Incarnation)
 		switch point {
+		case "ready", "afterSave", "beforeSendFollower":
+			// scheduling noise inside the ready-loop: a slow replica accumulates
+			// several steps (a snapshot plus later appends, a vote plus a heartbeat…)
+			// into one Ready
+			h := (atomic.AddUint64(&noiseCtr, 1)*0x9e3779b97f4a7c15 ^ noiseSeed) >> 40
+			if h%16 == 0 {
+				time.Sleep(time.Duration(h%12) * time.Millisecond)
+			}
 		case "run.start":
 			m.mu.Lock()
 			if w := cl.WAL(n, g); w != nil {
@@ -323,6 +333,19 @@ func scenario(rec *mon.Recorder, c int) {
 		m.note("---- " + step)
 		m.mu.Unlock()
 		time.Sleep(time.Duration(150+rng.Intn(250)) * time.Millisecond)
+		// local snapshot + compaction on some replicas: a follower that is down,
+		// cut off or merely slow now needs the leader's snapshot to catch up
+		for _, n := range cl.Nodes {
+			if n.Dead() || rng.Intn(5) >= 2 {
+				continue
+			}
+			for _, g := range append([]uuid.UUID{uuid.Nil}, pids...) {
+				if rng.Intn(2) == 0 {
+					go cl.TriggerSnapshot(n, g, 0)
+					rec.Count("compactions_triggered", 1)
+				}
+			}
+		}
 		cl.Disarm()
 		// partitions are healed before a node is restarted: its join handshake
 		// needs a member that has a leader (a join stuck behind an isolated
